@@ -193,6 +193,9 @@ func (t *Tx) GetUnconfirmedTx(dedup bool) ([]*pb.Transaction, error) {
 	if loadErr != nil {
 		return nil, loadErr
 	}
+	// 读了某个key的某个版本的交易, 必须排在改写这个版本的交易前面(否则打包出来的区块在其他节点上验证不过)
+	// 这类反向依赖只用于打包排序, 不加入SortUnconfirmedTx返回的依赖图(回滚子交易时不应该牵连改写者)
+	addAntiDependency(txMap, txGraph)
 	// 拓扑排序，输出的顺序是被依赖的在前，依赖方在后
 	outputTxList, unexpectedCyclic, _ := TopSortDFS(txGraph)
 	if unexpectedCyclic { // 交易之间检测出了环形的依赖关系
@@ -206,6 +209,36 @@ func (t *Tx) GetUnconfirmedTx(dedup bool) ([]*pb.Transaction, error) {
 		selectedTxs = append(selectedTxs, txMap[txid])
 	}
 	return selectedTxs, nil
+}
+
+// addAntiDependency adds an edge reader -> overwriter for every pair of unconfirmed transactions
+// where one only read the version of a key that the other one supersedes
+func addAntiDependency(txMap map[string]*pb.Transaction, txGraph TxGraph) {
+	version := func(in *protos.TxInputExt) string {
+		return fmt.Sprintf("%s/%s@%x_%d", in.Bucket, in.Key, in.RefTxid, in.RefOffset)
+	}
+	readers := map[string][]string{}
+	for txID, tx := range txMap {
+		for _, txIn := range tx.TxInputsExt {
+			readers[version(txIn)] = append(readers[version(txIn)], txID)
+		}
+	}
+	for txID, tx := range txMap {
+		written := map[string]bool{}
+		for _, txOut := range tx.TxOutputsExt {
+			written[txOut.Bucket+"/"+string(txOut.Key)] = true
+		}
+		for _, txIn := range tx.TxInputsExt {
+			if !written[txIn.Bucket+"/"+string(txIn.Key)] {
+				continue
+			}
+			for _, readerID := range readers[version(txIn)] {
+				if readerID != txID {
+					txGraph[readerID] = append(txGraph[readerID], txID)
+				}
+			}
+		}
+	}
 }
 
 // 加载所有未确认的订单表到内存
